@@ -8,6 +8,7 @@ from props.C02 import fc_frame
 
 class C08(PropBase):
     id = 'C08'
+    address_change = 0.15
     rx_only_gaps = 0.1
     partial_passes = 0.25
     rx_only_passes = 0.4
